@@ -5,6 +5,10 @@ package main
 //   - the packet buffer size expression, the source port, ipHLen of the IPv4 branch, pLen
 //   - the arguments of SetLen / udp.SetLen, the three copy()s (slice bounds + source), the bounds of the
 //     slice handed to Send, the slice put back into the pool, the order of the loop's statements
+//   - what the loop does when Send fails (statements of that `if`), and every statement anywhere in the
+//     loop that leaves it (return / break / goto / panic / os.Exit / Fatal): a worker's loop must have none (F25)
+//   - the dispatchers (mirrorIPFIXDispatcher / mirrorSFlowDispatcher): declarations, the worker-spawning
+//     loop, the dispatch loop and its exits, as statement text
 //   - the worker's hand-over block in vflow/{ipfix,sflow}.go (copy into a pool buffer, non-blocking send)
 //   - header constants, the template literal, the byte offsets written by Marshal / SetLen / SetAddrs
 //
@@ -131,6 +135,8 @@ func workerFacts(repo, file, fn, maxSel string, consts map[string]int) (string, 
 	setLenArg, udpSetLenArg := un("no SetLen"), un("no udp.SetLen")
 	var copies, loop []string
 	sendLo, sendHi, putLo, putHi := un("no Send"), un("no Send"), un("no Put"), un("no Put")
+	sendFail := []string{"unrecognised: no Send"}
+	var exits []string
 	dstPort := "?"
 	var fd *ast.FuncDecl
 	for _, d := range f.Decls {
@@ -260,16 +266,193 @@ func workerFacts(repo, file, fn, maxSel string, consts map[string]int) (string, 
 						if se, ok := call.Args[0].(*ast.SliceExpr); ok && goText(fset, se.X) == "packet" && se.Max == nil {
 							sendLo, sendHi = env.exLo(se.Low), env.ex(se.High)
 						}
+						// what happens when it fails: `if err = conn.Send(…); err != nil { <these> }`
+						sendFail = nil
+						if goText(fset, as.Lhs[0]) != "err" || goText(fset, s.Cond) != "err != nil" {
+							sendFail = append(sendFail, "unrecognised: if "+goText(fset, s.Init)+"; "+goText(fset, s.Cond))
+						}
+						for _, b := range s.Body.List {
+							sendFail = append(sendFail, goText(fset, b))
+						}
+						if s.Else != nil {
+							sendFail = append(sendFail, "else "+goText(fset, s.Else))
+						}
 					}
 				}
 			}
 			loop = append(loop, leanStr(kind))
 		}
+		exits = loopExits(fset, loopStmt)
 	}
 	var b strings.Builder
-	fmt.Fprintf(&b, "  { bufSize := %s\n    srcPort := %s\n    dstPort := %s\n    ipHLenV4 := %s\n    pLenIs := %s\n    setLenArg := %s\n    udpSetLenArg := %s\n    copies := [%s]\n    sendLo := %s\n    sendHi := %s\n    putLo := %s\n    putHi := %s\n    loop := [%s] }",
+	fmt.Fprintf(&b, "  { bufSize := %s\n    srcPort := %s\n    dstPort := %s\n    ipHLenV4 := %s\n    pLenIs := %s\n    setLenArg := %s\n    udpSetLenArg := %s\n    copies := [%s]\n    sendLo := %s\n    sendHi := %s\n    putLo := %s\n    putHi := %s\n    loop := [%s]\n    sendFail := %s\n    exits := %s }",
 		bufSize, srcPort, leanStr(dstPort), ipHLenV4, leanStr(pLenIs), setLenArg, udpSetLenArg, strings.Join(copies, ", "),
-		sendLo, sendHi, putLo, putHi, strings.Join(loop, ", "))
+		sendLo, sendHi, putLo, putHi, strings.Join(loop, ", "), leanStrList(sendFail), leanStrList(exits))
+	return b.String(), nil
+}
+
+// every statement inside the loop (at any depth, function literals included) that can leave it or end the
+// goroutine / process: return, break, goto, labelled continue, panic(…), os.Exit(…), …Fatal…(…), runtime.Goexit()
+func loopExits(fset *token.FileSet, loop *ast.ForStmt) []string {
+	out := []string{}
+	depth := 0 // nesting of inner for / switch / select statements, where a plain break stays inside
+	var walk func(n ast.Node)
+	walk = func(n ast.Node) {
+		ast.Inspect(n, func(x ast.Node) bool {
+			switch v := x.(type) {
+			case *ast.ReturnStmt:
+				out = append(out, goText(fset, v))
+			case *ast.BranchStmt:
+				switch {
+				case v.Tok == token.GOTO || v.Label != nil:
+					out = append(out, goText(fset, v))
+				case v.Tok == token.BREAK && depth == 0:
+					out = append(out, goText(fset, v))
+				}
+			case *ast.CallExpr:
+				fn := goText(fset, v.Fun)
+				if fn == "panic" || fn == "os.Exit" || fn == "runtime.Goexit" || strings.Contains(fn, "Fatal") || strings.Contains(fn, "Panic") {
+					out = append(out, goText(fset, v))
+				}
+			case *ast.ForStmt, *ast.RangeStmt, *ast.SwitchStmt, *ast.TypeSwitchStmt, *ast.SelectStmt:
+				if x != ast.Node(loop) {
+					depth++
+					switch b := x.(type) {
+					case *ast.ForStmt:
+						walk(b.Body)
+					case *ast.RangeStmt:
+						walk(b.Body)
+					case *ast.SwitchStmt:
+						walk(b.Body)
+					case *ast.TypeSwitchStmt:
+						walk(b.Body)
+					case *ast.SelectStmt:
+						walk(b.Body)
+					}
+					depth--
+					return false
+				}
+			}
+			return true
+		})
+	}
+	walk(loop.Body)
+	return out
+}
+
+// statements as text, with an `if` / expression-less `switch` opened one level: its head, then one entry per branch
+// ("then: a; b", "else: …", "case <cond>: a; b", "default: …")
+func flatStmts(fset *token.FileSet, list []ast.Stmt) []string {
+	join := func(l []ast.Stmt) string {
+		t := make([]string, len(l))
+		for i, x := range l {
+			t[i] = goText(fset, x)
+		}
+		return strings.Join(t, "; ")
+	}
+	var out []string
+	for _, st := range list {
+		switch s := st.(type) {
+		case *ast.IfStmt:
+			head := "if "
+			if s.Init != nil {
+				head += goText(fset, s.Init) + "; "
+			}
+			out = append(out, head+goText(fset, s.Cond), "then: "+join(s.Body.List))
+			switch e := s.Else.(type) {
+			case nil:
+			case *ast.BlockStmt:
+				out = append(out, "else: "+join(e.List))
+			default:
+				out = append(out, "else "+goText(fset, e))
+			}
+		case *ast.SwitchStmt:
+			if s.Tag != nil {
+				out = append(out, goText(fset, s))
+				continue
+			}
+			head := "switch"
+			if s.Init != nil {
+				head += " " + goText(fset, s.Init)
+			}
+			out = append(out, head)
+			for _, c := range s.Body.List {
+				cc := c.(*ast.CaseClause)
+				if cc.List == nil {
+					out = append(out, "default: "+join(cc.Body))
+					continue
+				}
+				conds := make([]string, len(cc.List))
+				for i, x := range cc.List {
+					conds[i] = goText(fset, x)
+				}
+				out = append(out, "case "+strings.Join(conds, ", ")+": "+join(cc.Body))
+			}
+		default:
+			out = append(out, goText(fset, st))
+		}
+	}
+	return out
+}
+
+// a dispatcher: its declarations, the statements of the worker-spawning loop and of the dispatch loop, as text.
+// Fail closed: the function must be `var (…)`, `if <addr> == "" { return }`, one counted `for` that starts the workers,
+// statements without control flow, and one endless `for`; anything else is reported as unrecognised.
+func dispatcherFacts(repo, file, fn string) (string, error) {
+	fset := token.NewFileSet()
+	f, err := parser.ParseFile(fset, filepath.Join(repo, "vflow", file), nil, 0)
+	if err != nil {
+		return "", err
+	}
+	var fd *ast.FuncDecl
+	for _, d := range f.Decls {
+		if x, ok := d.(*ast.FuncDecl); ok && x.Name.Name == fn {
+			fd = x
+		}
+	}
+	if fd == nil {
+		return "", fmt.Errorf("%s: func %s not found", file, fn)
+	}
+	var decls, guard, spawnHead, spawn, between, loop, exits []string
+	seenLoop := false
+	for _, st := range fd.Body.List {
+		txt := goText(fset, st)
+		if seenLoop {
+			between = append(between, "unrecognised after the dispatch loop: "+txt)
+			continue
+		}
+		switch s := st.(type) {
+		case *ast.DeclStmt:
+			if gd, ok := s.Decl.(*ast.GenDecl); ok && gd.Tok == token.VAR {
+				for _, sp := range gd.Specs {
+					decls = append(decls, goText(fset, sp))
+				}
+				continue
+			}
+			between = append(between, "unrecognised: "+txt)
+		case *ast.IfStmt:
+			guard = append(guard, txt)
+		case *ast.ForStmt:
+			if s.Cond == nil && s.Init == nil && s.Post == nil {
+				seenLoop = true
+				loop = flatStmts(fset, s.Body.List)
+				exits = loopExits(fset, s)
+			} else {
+				spawnHead = append(spawnHead, "for "+goText(fset, s.Init)+"; "+goText(fset, s.Cond)+"; "+goText(fset, s.Post))
+				spawn = append(spawn, flatStmts(fset, s.Body.List)...)
+			}
+		case *ast.AssignStmt, *ast.ExprStmt:
+			between = append(between, txt)
+		default:
+			between = append(between, "unrecognised: "+txt)
+		}
+	}
+	if !seenLoop {
+		loop = []string{"unrecognised: no dispatch loop"}
+	}
+	var b strings.Builder
+	fmt.Fprintf(&b, "  { decls := %s\n    guard := %s\n    spawnHead := %s\n    spawn := %s\n    between := %s\n    loop := %s\n    exits := %s }",
+		leanStrList(decls), leanStrList(guard), leanStrList(spawnHead), leanStrList(spawn), leanStrList(between), leanStrList(loop), leanStrList(exits))
 	return b.String(), nil
 }
 
@@ -354,9 +537,20 @@ func genMirrorFacts(repo string) (genFile, error) {
 	var b strings.Builder
 	b.WriteString("/-! generated by factgen (mirror_facts.go) from vflow/{ipfix,sflow}_unix.go and mirror/*.go — do not edit -/\nnamespace Vflow.Gen.MirrorFacts\n\n")
 	b.WriteString("/-- a size/offset expression: `c + p*pLen + m*max`, an omitted upper bound, or unrecognised text -/\ninductive Ex where\n  | lin (c p m : Nat)\n  | len\n  | unrecognised (goText : String)\nderiving DecidableEq, Repr\n\n")
-	b.WriteString("structure Worker where\n  bufSize : Ex\n  srcPort : Ex\n  dstPort : String\n  ipHLenV4 : Ex\n  pLenIs : String\n  setLenArg : Ex\n  udpSetLenArg : Ex\n  copies : List (Ex × Ex × String)\n  sendLo : Ex\n  sendHi : Ex\n  putLo : Ex\n  putHi : Ex\n  loop : List String\nderiving DecidableEq, Repr\n\n")
+	b.WriteString("structure Worker where\n  bufSize : Ex\n  srcPort : Ex\n  dstPort : String\n  ipHLenV4 : Ex\n  pLenIs : String\n  setLenArg : Ex\n  udpSetLenArg : Ex\n  copies : List (Ex × Ex × String)\n  sendLo : Ex\n  sendHi : Ex\n  putLo : Ex\n  putHi : Ex\n  loop : List String\n  sendFail : List String\n  exits : List String\nderiving DecidableEq, Repr\n\n")
+	b.WriteString("structure Dispatcher where\n  decls : List String\n  guard : List String\n  spawnHead : List String\n  spawn : List String\n  between : List String\n  loop : List String\n  exits : List String\nderiving DecidableEq, Repr\n\n")
 	b.WriteString("def mirrorIPFIX : Worker :=\n" + ipfix + "\n\n")
 	b.WriteString("def mirrorSFlow : Worker :=\n" + sflow + "\n\n")
+	for _, d := range []struct{ lean, file, fn string }{
+		{"ipfixDispatcher", "ipfix_unix.go", "mirrorIPFIXDispatcher"},
+		{"sflowDispatcher", "sflow_unix.go", "mirrorSFlowDispatcher"},
+	} {
+		body, err := dispatcherFacts(repo, d.file, d.fn)
+		if err != nil {
+			return genFile{}, err
+		}
+		fmt.Fprintf(&b, "/-- %s (vflow/%s) -/\ndef %s : Dispatcher :=\n%s\n\n", d.fn, d.file, d.lean, body)
+	}
 	for _, k := range []string{"IPv4HLen", "IPv6HLen", "UDPHLen", "UDPProto"} {
 		v, ok := consts[k]
 		if !ok {
